@@ -681,6 +681,9 @@ class CallMixin:
 
     def bi_dict(self, x=None, **kw):
         d = {}
+        if isinstance(x, ZippedSites) and not kw:
+            vals = self.ctx.fn("per_site_values", U, z3.ArraySort(U, U))(x.values.t)
+            return SymMap(x.m.has, vals, "EditRequest", "zipped")
         if x is not None:
             if isinstance(x, dict):
                 d.update(x)
@@ -698,6 +701,9 @@ class CallMixin:
         return frozenset(self.iterate(x))
 
     def bi_zip(self, *xs):
+        if len(xs) == 2 and isinstance(xs[0], SymMapView) and xs[0].kind == "keys" and isinstance(xs[1], UVal):
+            # keys of a symbolic dict (insertion = visit order) zipped with an opaque list built in the same order
+            return ZippedSites(xs[0].m, xs[1])
         if any(isinstance(x, Stacked) and not isinstance(x.n, int) for x in xs):
             n = [x.n for x in xs if isinstance(x, Stacked)][0]
             xs2 = list(xs)
@@ -918,6 +924,13 @@ class CallMixin:
 def Env_(parent, owner=None):
     from .interp import Env
     return Env({}, parent, owner=owner)
+
+
+class ZippedSites:
+    """zip(sites.keys(), per-site list): the i-th visited address paired with the i-th list element"""
+
+    def __init__(self, m, values):
+        self.m, self.values = m, values
 
 
 class SymMapView:
